@@ -1064,6 +1064,23 @@ def zrank_init(rep, ex: Explorer, cls=ZP):
                 if not cons:
                     continue  # rejected input (unknown variables, wrong type): raised before any partition
                 c = cons[-1]
+                # FACT.signature: the base that is partitioned (and against which the facts were validated on the way) is a base
+                # over the signature the ranking is built for - the one handed in, not the belief base's own
+                cb_ = p.state.heap.get(c.bb.oid) if isinstance(getattr(c, "bb", None), Ref) else None
+                sg_ = cb_.attrs.get("signature") if isinstance(cb_, HObj) else None
+                if with_facts and sg_ is not None:
+                    d_ = desc(sg_)
+                    own_sig = d_ == desc(ElemV(SIG, "coll", "str"))
+                    base_sig = isinstance(d_, tuple) and "signature" in repr(d_) and "'D'" in repr(d_)
+                    if isinstance(sg_, Ref):
+                        # (a copy of it: a list with one entry per member of the signature handed in, in that order)
+                        vw_ = view(p.state, sg_)
+                        own_sig = isinstance(vw_, tuple) and vw_[0] == "list" and len(vw_[1]) == 1 and vw_[1][0][0] == "each" and vw_[1][0][2] == ("members", SIG) \
+                            and vw_[1][0][3] == PTRUE and isinstance(vw_[1][0][4], ElemV) and vw_[1][0][4].var == vw_[1][0][1]
+                    if own_sig or base_sig:
+                        rep.check(own_sig, "FACT.shape", f"{site}:{c.node.lineno}", f"signature of the ranked base (extended={ext.value})",
+                                  "with an explicit signature, base ∪ facts is built (and the facts are validated) over that signature, not over the belief base's own",
+                                  extracted=F.show_desc(d_)[:120] if isinstance(d_, tuple) else repr(d_)[:120], required="the signature passed to the constructor", function=site)
                 pf = decided(p, ("partfalse", ("part", c.pid)))
                 c_weakly = value_on_path(p, c.weakly)
                 mode_ok = isinstance(c_weakly, Const) and bool(c_weakly.value) == bool(want_mode)
